@@ -89,6 +89,24 @@ Print Assumptions C10_missing_edges_exact_set.
 Print Assumptions C10_adhoc_tf_agrees.
 Print Assumptions C10_unseen_value_has_null_tf.
 
+(* the LEFT JOIN ... ON both keys ... WHERE both NULL that the translator finds in the emitted
+   missing-edge SQL keeps exactly the candidate pairs that are not among the supplied predictions *)
+Theorem C10_anti_join_exact :
+  forall on wh pairs preds,
+    anti_join_ok (Some (on, wh)) true = true ->
+    flat_map (fun ne => left_join_where on wh ne preds) pairs
+    = filter (fun ne => negb (existsb (key_pair_eqb ne) preds)) pairs.
+Proof. exact anti_join_ok_sound. Qed.
+Print Assumptions C10_anti_join_exact.
+
+Example C10_example_anti_join :
+  flat_map (fun ne => left_join_where canon_on canon_wh ne [(1, 2); (3, 4); (1, 2)]%nat) [(1, 2); (2, 1); (3, 4); (1, 4)]%nat
+  = [(2, 1); (1, 4)]%nat /\
+  (* joining on the left key only loses (1,4) *)
+  flat_map (fun ne => left_join_where (JEq KOeL KNeL) canon_wh ne [(1, 2); (3, 4)]%nat) [(1, 2); (2, 1); (3, 4); (1, 4)]%nat
+  = [(2, 1)]%nat.
+Proof. vm_compute. auto. Qed.
+
 (* non-vacuity: three records 0,1,2 (value = id mod 2), one exact-match comparison *)
 Definition ex_cmp : list level :=
   [ {| lcond := 0; is_null := false; is_else := false; lm := 9 # 10; lu := 1 # 10; tf_col := Some 0%nat;
